@@ -51,6 +51,60 @@ def _unpack(x):
     return a
 
 
+def array_provenances():
+    """Every way a program obtains a Nada array, and every construct that walks over one: [(provenance, construct,
+    outcome)].  The element count of an array is a type-level fact, but handing its members to Python would let the
+    program shape follow the values (`for x in arr: if …`), and the property says iteration raises — for every array."""
+    from nada_dsl import Party, nada_fn, SecretInteger, Array, NTuple, Object, Tuple, unzip
+    from nada_dsl.program_io import Input as RawInput
+    reset_globals()
+    party = Party("p")
+
+    def sec(n):
+        return SecretInteger(RawInput(n, party))
+    box = {}
+
+    def body(z: SecretInteger) -> SecretInteger:
+        return z + z
+
+    def arr_body(zs):
+        box["param"] = zs
+        return sec("ret")
+    inp = Array(sec("arr"), size=3)
+    provs = {"input": inp, "new": Array.new(sec("a"), sec("b")), "new-one": Array.new(sec("c"))}
+    try:
+        provs["map"] = inp.map(nada_fn(body))
+        provs["zip"] = inp.zip(Array(sec("arr2"), size=3))
+        provs["from-ntuple"] = NTuple.new([Array.new(sec("d"), sec("e")), sec("f")])[0]
+        provs["from-object"] = Object.new({"xs": Array.new(sec("g"), sec("h"))}).xs
+        provs["new-of-arrays"] = Array.new(Array.new(sec("i")), Array.new(sec("j")))
+        try:
+            nada_fn(arr_body, args_ty={"zs": Array[SecretInteger]}, return_ty=SecretInteger)
+        except Exception:  # pylint: disable=broad-except
+            pass
+        if "param" in box:
+            provs["fnparam"] = box["param"]
+    except Exception as exc:  # pylint: disable=broad-except
+        provs["__error__"] = exc
+    probe = sec("probe")
+    out = []
+    for name, x in provs.items():
+        if name == "__error__":
+            out.append((name, "construction", f"{type(x).__name__}: {x}"))
+            continue
+        constructs = {
+            "list(x)": lambda: list(x), "for": lambda: _for(x), "comprehension": lambda: [e for e in x], "unpack": lambda: _unpack(x),
+            "tuple(x)": lambda: tuple(x), "*x": lambda: (lambda *a: a)(*x), "iter(x)": lambda: next(iter(x)),
+            "sorted(key)": lambda: sorted(x, key=id), "in": lambda: probe in x, "sum": lambda: sum(x), "zip()": lambda: list(zip(x, [1])),
+            "enumerate": lambda: list(enumerate(x)), "any": lambda: any(x), "min(key)": lambda: min(x, key=id),
+            "if x": lambda: 1 if x else 2, "not x": lambda: not x,
+        }
+        for cname, thunk in constructs.items():
+            out.append((name, cname, kind(thunk)))
+    reset_globals()
+    return out
+
+
 def real_routes(cls, provenance):
     """Execute every construct on a real instance of `cls`; returns {(route, other): outcome}."""
     from nada_dsl import Party, nada_fn, SecretInteger
@@ -154,6 +208,13 @@ def run(res, tier):
     mixed, nmixed = mixed_results()
     for text, why in mixed[:6]:
         res.violation({"property": "C07", "kind": "mixed-result", "expr": text, "why": why}, f"{text}: {why}")
+    arr_rows = array_provenances()
+    for prov, construct, outc in arr_rows:
+        if prov == "__error__":
+            res.broken.append({"decl": "C07 array provenances", "msg": outc})
+        elif outc != "raises":
+            res.violation({"property": "C07", "kind": "array-walk", "provenance": prov, "construct": construct, "observed": outc},
+                          f"array [{prov}] {construct}: walking over / testing a Nada array did not raise")
     pred = {}
     for c, r, o, outc in core.driver([{"k": "c07routes"}])[0]:
         pred[(c, r, o)] = outc
@@ -207,6 +268,7 @@ def run(res, tier):
         "classes": [c.__name__ for c in classes],
         "protocol_model_disagreements": len(diffs),
         "mixed_literal_operand_results_checked": nmixed,
+        "array_walks_checked": len(arr_rows), "array_provenances": sorted({p for p, _, _ in arr_rows}),
         "samples": samples,
     })
     res.assumptions += ["CPython looks special methods up on the type (instance attributes cannot change them)",
@@ -216,6 +278,12 @@ def run(res, tier):
 def replay(obj):
     if obj.get("kind") == "mixed-result":
         bad = [b for b in mixed_results()[0] if b[0] == obj["expr"]]
+        print(bad or "ok")
+        if bad:
+            print("VIOLATION property=C07 replay=(replayed)")
+        return 1 if bad else 0
+    if obj.get("kind") == "array-walk":
+        bad = [r for r in array_provenances() if r[0] == obj["provenance"] and r[1] == obj["construct"] and r[2] != "raises"]
         print(bad or "ok")
         if bad:
             print("VIOLATION property=C07 replay=(replayed)")
